@@ -123,6 +123,59 @@ theorem entry_overflow (cfg : Cfg) (s : St) (d f t0 : Nat) (hg : GoodW s d) (hm 
     refine ⟨⟨h1, by simpa [markTo_length] using h2, h3, h4, h5, h6, h7, h8, h9, h10, markTo_noskip _ h11⟩,
       WClosed_markTo _ hc, fun _ => pending_markTo _, markTo_open _ ho⟩
 
+/-- -finstrument-functions beyond --max-stack, after the overflow was reported: the entry hook only
+    counts (`idx++`), the exit hook only counts back; whatever is called in between, the state
+    comes back exactly -/
+theorem exit_over (cfg : Cfg) (s : St) (t : Nat) :
+    exit cfg { s with over := s.over + 1 } t = s := by
+  cases s; simp [exit]
+
+mutual
+theorem cyg_sat_call (cfg : Cfg) : ∀ (c : Call) (s : St), s.idx ≥ cfg.maxStack → s.warned = true →
+    runCall cfg .cyg s c = s
+  | .node f t0 t1 kids, s, hi, hw => by
+    have he : entry cfg .cyg s f t0 = ({ s with over := s.over + 1 }, true) := by
+      simp [entry, entryFilterCheck, checkRstack, hi, hw]
+    have hk := cyg_sat_calls cfg kids { s with over := s.over + 1 } (by simp [St.idx] at hi ⊢; omega) hw
+    simp only [runCall, he, ↓reduceIte, hk]
+    exact exit_over cfg s t1
+theorem cyg_sat_calls (cfg : Cfg) : ∀ (cs : Calls) (s : St), s.idx ≥ cfg.maxStack → s.warned = true →
+    runCalls cfg .cyg s cs = s
+  | .nil, s, _, _ => rfl
+  | .cons c rest, s, hi, hw => by
+    simp only [runCalls]
+    rw [cyg_sat_call cfg c s hi hw]
+    exact cyg_sat_calls cfg rest s hi hw
+end
+
+/-- a call beyond --max-stack on the -finstrument-functions path: the whole call (entry hook,
+    everything it calls, exit hook) leaves exactly the state the -pg entry hook leaves
+    (overflow reported once, open frames flushed) -/
+theorem runCall_cyg_overflow (cfg : Cfg) (s : St) (d : Nat) (c : Call) (f t0 : Nat) (hg : GoodW s d)
+    (hm : cfg.maxStack ≤ d) :
+    runCall cfg .cyg s c = (entry cfg .pg s f t0).1 := by
+  obtain ⟨⟨h1, h2, h3, h4, h5, h6, h7, h8, h9, h10, h11⟩, hc, hw, ho⟩ := hg
+  have hidx : s.idx ≥ cfg.maxStack := by simp [St.idx, h1, h2]; omega
+  cases c with
+  | node g u0 u1 kids =>
+  by_cases hwd : s.warned = true
+  · have hp : (entry cfg .pg s f t0).1 = s := by
+      simp [entry, entryFilterCheck, checkRstack, hidx, hwd]
+    rw [hp]; exact cyg_sat_call cfg _ s hidx hwd
+  · have hwd' : s.warned = false := by simpa using hwd
+    let s1 : St := { s with frames := (recordTrace s.frames).1, out := s.out ++ (recordTrace s.frames).2, warned := true }
+    have hp : (entry cfg .pg s f t0).1 = s1 := by
+      simp [entry, entryFilterCheck, checkRstack, hidx, hwd', s1]
+    have he : entry cfg .cyg s g u0 = ({ s1 with over := s1.over + 1 }, true) := by
+      simp [entry, entryFilterCheck, checkRstack, hidx, hwd', s1]
+    have hrt := recordTrace_open s.frames h11 ho
+    have hi1 : ({ s1 with over := s1.over + 1 } : St).idx ≥ cfg.maxStack := by
+      simp [St.idx, s1, hrt, markTo_length] at hidx ⊢; omega
+    have hk := cyg_sat_calls cfg kids { s1 with over := s1.over + 1 } hi1 rfl
+    rw [hp]
+    simp only [runCall, he, ↓reduceIte, hk]
+    exact exit_over cfg s1 u1
+
 theorem entry_plain_warned (cfg : Cfg) (hp : Plain cfg) (k : Kind) (s : St) (d f t0 : Nat)
     (hg : Good s d) (hm : d < cfg.maxStack) (hd : d < cfg.depthOpt) :
     (entry cfg k s f t0).1.warned = false := by
@@ -146,26 +199,32 @@ theorem eager_exit_eq (out : List Rec) (w : Bool) (G F : Frame) (gs : List Frame
   cases w <;> simp [pending, pending_markTo, entryRec]
 
 mutual
-theorem over_call (cfg : Cfg) (hp : Plain cfg) (hdo : cfg.maxStack ≤ cfg.depthOpt) :
+theorem over_call (cfg : Cfg) (hp : Plain cfg) (k : Kind) (hdo : cfg.maxStack ≤ cfg.depthOpt) :
     ∀ (c : Call) (s : St) (d : Nat), GoodW s d → d ≤ cfg.maxStack → c.timed →
-      eager (runCall cfg .pg s c) = eager s ++ evCallB d (cfg.maxStack - d) c ∧
-      (runCall cfg .pg s c).frames.map eraseW = s.frames.map eraseW ∧
-      GoodW (runCall cfg .pg s c) d
+      eager (runCall cfg k s c) = eager s ++ evCallB d (cfg.maxStack - d) c ∧
+      (runCall cfg k s c).frames.map eraseW = s.frames.map eraseW ∧
+      GoodW (runCall cfg k s c) d
   | .node f t0 t1 kids, s, d, hg, hm, ht => by
     simp only [Call.timed] at ht
     by_cases hfull : cfg.maxStack ≤ d
     · -- beyond the shadow stack: the call and everything below it is dropped
       have hb : cfg.maxStack - d = 0 := by omega
       obtain ⟨o1, o2, o3, o4⟩ := entry_overflow cfg s d f t0 hg hfull
-      obtain ⟨k1, k2, k3⟩ := over_calls cfg hp hdo kids (entry cfg .pg s f t0).1 d o4 hm ht.2
-      simp only [runCall, o1, Bool.false_eq_true, ↓reduceIte]
-      refine ⟨?_, k2.trans o3, k3⟩
-      rw [k1, o2, hb, evCallsB_zero]; simp [evCallB]
+      cases k with
+      | pg =>
+        obtain ⟨k1, k2, k3⟩ := over_calls cfg hp .pg hdo kids (entry cfg .pg s f t0).1 d o4 hm ht.2
+        simp only [runCall, o1, Bool.false_eq_true, ↓reduceIte]
+        refine ⟨?_, k2.trans o3, k3⟩
+        rw [k1, o2, hb, evCallsB_zero]; simp [evCallB]
+      | cyg =>
+        rw [runCall_cyg_overflow cfg s d _ f t0 hg hfull]
+        refine ⟨?_, o3, o4⟩
+        rw [o2, hb]; simp [evCallB]
     · have hlt : d < cfg.maxStack := by omega
-      obtain ⟨e1, e2, e3, e4⟩ := entry_plain cfg hp .pg s d f t0 hg.good hlt (by omega)
-      have ew := entry_plain_warned cfg hp .pg s d f t0 hg.good hlt (by omega)
-      have hFw : (plainFrame .pg f t0 d).written = false := rfl
-      have hgw1 : GoodW (entry cfg .pg s f t0).1 (d + 1) := by
+      obtain ⟨e1, e2, e3, e4⟩ := entry_plain cfg hp k s d f t0 hg.good hlt (by omega)
+      have ew := entry_plain_warned cfg hp k s d f t0 hg.good hlt (by omega)
+      have hFw : (plainFrame k f t0 d).written = false := rfl
+      have hgw1 : GoodW (entry cfg k s f t0).1 (d + 1) := by
         refine ⟨e4, ?_, ?_, ?_⟩
         · rw [e3]; exact ⟨fun h => by simp [hFw] at h, hg.closed⟩
         · intro h; simp [ew] at h
@@ -174,15 +233,15 @@ theorem over_call (cfg : Cfg) (hp : Plain cfg) (hdo : cfg.maxStack ≤ cfg.depth
           rcases hgm with rfl | hgm
           · rfl
           · exact hg.open_ g hgm
-      obtain ⟨k1, k2, k3⟩ := over_calls cfg hp hdo kids (entry cfg .pg s f t0).1 (d + 1) hgw1 (by omega) ht.2
+      obtain ⟨k1, k2, k3⟩ := over_calls cfg hp k hdo kids (entry cfg k s f t0).1 (d + 1) hgw1 (by omega) ht.2
       rw [e3] at k2
       obtain ⟨G, gs, hfr, hG, hgs⟩ := eraseW_head k2.symm
       have hcl := k3.closed
       rw [hfr] at hcl
       have hw : G.written = true → markTo gs = gs := fun h => (pending_nil_iff_markTo gs).1 (hcl.1 h)
-      have hfr' : (runCalls cfg .pg (entry cfg .pg s f t0).1 kids).frames =
-          { plainFrame .pg f t0 d with written := G.written } :: gs := by rw [hfr, ← hG]
-      obtain ⟨x1, x2, x3⟩ := exit_plain cfg hp .pg _ d f t0 t1 G.written gs hfr' k3.good ht.1 hw
+      have hfr' : (runCalls cfg k (entry cfg k s f t0).1 kids).frames =
+          { plainFrame k f t0 d with written := G.written } :: gs := by rw [hfr, ← hG]
+      obtain ⟨x1, x2, x3⟩ := exit_plain cfg hp k _ d f t0 t1 G.written gs hfr' k3.good ht.1 hw
       simp only [runCall, e1, ↓reduceIte]
       have hopen2 : ∀ g ∈ gs, g.endT = 0 := fun g hgm => k3.open_ g (by rw [hfr]; simp [hgm])
       refine ⟨?_, ?_, ⟨x3, ?_, ?_, ?_⟩⟩
@@ -190,8 +249,8 @@ theorem over_call (cfg : Cfg) (hp : Plain cfg) (hdo : cfg.maxStack ≤ cfg.depth
         have hb1 : cfg.maxStack - d - 1 = cfg.maxStack - (d + 1) := by omega
         simp only [eager, x1, x2]
         rw [eager_exit_eq _ _ G _ gs _ hG]
-        have : (runCalls cfg .pg (entry cfg .pg s f t0).1 kids).out ++ pending (G :: gs) =
-            eager (runCalls cfg .pg (entry cfg .pg s f t0).1 kids) := by simp [eager, hfr]
+        have : (runCalls cfg k (entry cfg k s f t0).1 kids).out ++ pending (G :: gs) =
+            eager (runCalls cfg k (entry cfg k s f t0).1 kids) := by simp [eager, hfr]
         rw [this, k1]
         simp only [eager, e2, e3, pending_cons_unwritten' _ _ hFw, evCallB, hb, ↓reduceIte, hb1]
         simp [entryRec, plainFrame]
@@ -199,16 +258,16 @@ theorem over_call (cfg : Cfg) (hp : Plain cfg) (hdo : cfg.maxStack ≤ cfg.depth
       · rw [x2]; exact WClosed_markTo _ hcl.2
       · intro _; rw [x2]; exact pending_markTo _
       · rw [x2]; exact markTo_open _ hopen2
-theorem over_calls (cfg : Cfg) (hp : Plain cfg) (hdo : cfg.maxStack ≤ cfg.depthOpt) :
+theorem over_calls (cfg : Cfg) (hp : Plain cfg) (k : Kind) (hdo : cfg.maxStack ≤ cfg.depthOpt) :
     ∀ (cs : Calls) (s : St) (d : Nat), GoodW s d → d ≤ cfg.maxStack → cs.timed →
-      eager (runCalls cfg .pg s cs) = eager s ++ evCallsB d (cfg.maxStack - d) cs ∧
-      (runCalls cfg .pg s cs).frames.map eraseW = s.frames.map eraseW ∧
-      GoodW (runCalls cfg .pg s cs) d
+      eager (runCalls cfg k s cs) = eager s ++ evCallsB d (cfg.maxStack - d) cs ∧
+      (runCalls cfg k s cs).frames.map eraseW = s.frames.map eraseW ∧
+      GoodW (runCalls cfg k s cs) d
   | .nil, s, d, hg, _, _ => by simp [runCalls, evCallsB, hg]
   | .cons c rest, s, d, hg, hm, ht => by
     simp only [Calls.timed] at ht
-    obtain ⟨c1, c2, c3⟩ := over_call cfg hp hdo c s d hg hm ht.1
-    obtain ⟨r1, r2, r3⟩ := over_calls cfg hp hdo rest (runCall cfg .pg s c) d c3 hm ht.2
+    obtain ⟨c1, c2, c3⟩ := over_call cfg hp k hdo c s d hg hm ht.1
+    obtain ⟨r1, r2, r3⟩ := over_calls cfg hp k hdo rest (runCall cfg k s c) d c3 hm ht.2
     simp only [runCalls]
     refine ⟨?_, r2.trans c2, r3⟩
     rw [r1, c1]; simp [evCallsB]
